@@ -58,7 +58,7 @@ theorem cons_glob_spec_globMatch_eq_pattern_globB (ts : List Pattern.Term) (v : 
     Spec.globMatch (Pattern.specTerms ts) v = Pattern.globB ts v := Pattern.spec_globMatch_eq ts v
 
 /-- the same from the Spec side: every Spec term list is the image of a pattern term list (`patTermOfSpec`) -/
-theorem cons_glob_spec_globMatch_eq_pattern_globB' (ts : List Spec.Term) (v : Spec.Bytes) :
+theorem cons_glob_spec_globMatch_eq_pattern_globB_specTerms (ts : List Spec.Term) (v : Spec.Bytes) :
     Spec.globMatch ts v = Pattern.globB (ts.map patTermOfSpec) v := by
   rw [← cons_glob_spec_globMatch_eq_pattern_globB, cons_glob_specTerms_patTermOfSpec]
 
